@@ -145,6 +145,8 @@ fn parse_inputs(r: &mut Rng, n: usize, signed: bool, radix: u32, count: usize) -
     let mut mags: Vec<B> = vec![gen::zero(n + 1), one.clone(), gen::small(n + 1, radix as u64 - 1), gen::small(n + 1, radix as u64)];
     if signed {
         mags.extend([max_s.clone(), gen::add1(&max_s), gen::add1(&min_s), gen::sub1(&max_s)]);
+        // the signed parser sits on the unsigned one: magnitudes around 2^BITS matter too
+        mags.extend([max_u.clone(), gen::add1(&max_u), gen::add1(&gen::add1(&max_u))]);
     } else {
         mags.extend([max_u.clone(), gen::add1(&max_u), gen::sub1(&max_u)]);
     }
@@ -168,7 +170,8 @@ fn parse_inputs(r: &mut Rng, n: usize, signed: bool, radix: u32, count: usize) -
         }
     }
     // mutations: an invalid character somewhere
-    let bad: [&[u8]; 12] = [b" ", b"_", b"+", b"-", "é".as_bytes(), b"z", b"Z", b".", b"\x00", b"\xff", b"/", b":"];
+    // includes the characters adjacent to the digit and letter ranges in ASCII
+    let bad: [&[u8]; 20] = [b" ", b"_", b"+", b"-", "é".as_bytes(), b"z", b"Z", b".", b"\x00", b"\xff", b"/", b":", b";", b"?", b"@", b"[", b"`", b"{", b"\x7f", b"\x80"];
     let base = v.clone();
     for _ in 0..(count / 2).max(6) {
         let mut s = r.pick(&base).clone();
@@ -184,13 +187,15 @@ fn parse_inputs(r: &mut Rng, n: usize, signed: bool, radix: u32, count: usize) -
         }
         v.push(s);
     }
+    // a sign after leading zeros, in the middle, at the end
+    v.extend([b"0+1".to_vec(), b"00-1".to_vec(), b"0+0".to_vec(), b"1+1".to_vec(), b"1-".to_vec(), b"0-".to_vec(), b"000000000+1".to_vec(), b"0000000000000000000000000000000000000000-1".to_vec()]);
     v.extend([b"".to_vec(), b"+".to_vec(), b"-".to_vec(), b"+-1".to_vec(), b"--1".to_vec(), b"-+1".to_vec(), b" 1".to_vec(), b"1 ".to_vec(), b"0x10".to_vec(), b"-0".to_vec(), b"+0".to_vec(), b"00".to_vec(), b"-".to_vec()]);
     // shuffle-ish subsample
     let mut outv = Vec::new();
-    let keep = count + 13;
+    let keep = count + 21;
     let total = v.len();
     for (i, s) in v.into_iter().enumerate() {
-        if total <= keep || i + 13 >= total || r.below(total as u64) < keep as u64 {
+        if total <= keep || i + 21 >= total || r.below(total as u64) < keep as u64 {
             outv.push(s);
         }
     }
